@@ -5,7 +5,7 @@
 export GOFLAGS=-mod=mod GOPROXY=off GOSUMDB=off GOTOOLCHAIN=local
 ID=$1; OUT=$2; WT=$3
 cd "$WT" || exit 2
-git checkout -q -- . ; git clean -fdq
+git reset -q; git checkout -q -- . ; git clean -fdq
 git apply "$OUT/patch.diff" || { echo "{\"id\":\"$ID\",\"error\":\"patch does not apply\"}"; exit 1; }
 suite=$(go test -vet=off -count=1 ./... 2>&1 | grep -c "^ok")
 pkg=$(head -20 "$OUT/demo_test.go" | grep -m1 "^package" | awk '{print $2}')
